@@ -31,8 +31,19 @@ by their own `initialize()` on the in-memory net (`rpmc.net`):
       -> tmgr  staging_output.Default (work_cb)     [Transfer]
 
 The stager is the real `StagingHelper` (SAGA is not installed: its own
-constructor falls back to `StagingHelper_Local`).  Every bulk holds the task
-under test (A) and a bystander (B) whose directives are all good.
+constructor falls back to `StagingHelper_Local`).  Every world holds the task
+under test (A) and a bystander (B) whose directives are all good and use
+schema-less relative sources and targets on the client and on the agent side.
+
+History independence: the components of one world handle the tasks one after
+the other, so whatever a component (or its module) keeps from one task to the
+next is visible.  The `order` of a case says who comes first and how: `AB`
+one submission (one bulk where the component keeps bulks together), `B,A`
+separate submissions and bulks with the bystander first, a trailing `+`
+forwards all pending bulks as one.  Part seq3 runs three tasks under test
+through one world.  Every directive is labelled with the position (first /
+later) its task had in the component which handles it, read from the order of
+the state publications.
 
 Reference (A.9)
 ---------------
@@ -57,6 +68,9 @@ good-task-failed        a task whose directives can all be carried out is not
                         FAILED by a stager
 bystander-failed,       the other task of the bulk is passed on, staged, DONE,
 failed-and-passed/-done and never announced as FAILED
+foreign-data            after input and after output staging every task sandbox
+                        holds nothing but the sources and targets of its own
+                        directives (and its own tarball)
 failed-task-output-staged  FAILED / CANCELED without stage_on_error (or a task
                         which failed in input staging) => no output target
 form-refused            a documented form is refused at submission
@@ -79,8 +93,8 @@ run alone does not copy the file / does not report a missing file ->
 <backend>.copy; tarball arrived intact in the task sandbox -> agent side; else
 the component which handles the action.  For the target and good-task-failed
 clauses the trigger is computed at the end of the run (`aggregate`): the
-direction plus the smallest set of directive attributes (op, action, form,
-source / target location and shape, odd spelling) such that every evaluated
+direction plus the smallest set of directive attributes (op, position in the
+component, action, form, source / target location and shape, odd spelling) such that every evaluated
 directive agreeing on them fails -- one cause, one key.
 '''
 
@@ -109,8 +123,10 @@ from radical.pilot.agent.staging_output.default    import Default as AgentOut # 
 
 SID = 'rp.session.verif'
 PID = 'pilot.0000'
-UID_A = 'task.a'
-UID_B = 'task.b'
+UIDS  = {'A': 'task.a', 'B': 'task.b', 'C': 'task.c', 'D': 'task.d'}
+OFFS  = {'A': 0, 'B': 7, 'C': 20, 'D': 30}    # index range of file names
+UID_A = UIDS['A']
+UID_B = UIDS['B']
 
 TRANSFER, COPY, LINK, MOVE, TARBALL = (rpc.TRANSFER, rpc.COPY, rpc.LINK,
                                        rpc.MOVE, rpc.TARBALL)
@@ -497,28 +513,48 @@ def copy_ignores_errors(w):
 # ------------------------------------------------------------------------------
 #
 def bystander_spec():
+    '''all good, and with schema-less relative sources and targets for the
+    client side and for the agent side, in and out: a stale `pwd` (of either
+    task) shows'''
     return {'in' : [{'form': '>',    'src': ['rel',   'flat'],
                      'tgt' : ['rel', 'flat']},
                     {'form': 'dict', 'action': LINK,
-                     'src' : ['pilot', 'flat'], 'tgt': ['task', 'flat']}],
+                     'src' : ['pilot', 'flat'], 'tgt': ['rel', 'sub']},
+                    {'form': 'dict', 'action': MOVE,
+                     'src' : ['rel', 'sub'],    'tgt': ['task', 'flat']}],
             'out': [{'form': 'str',  'src': ['rel', 'flat']},
-                    {'form': 'dict', 'action': COPY,
-                     'src' : ['task', 'sub'], 'tgt': ['pilot', 'sub']}]}
+                    {'form': '<',    'src': ['task', 'flat'],
+                     'tgt' : ['rel', 'sub']},
+                    {'form': 'dict', 'action': LINK,
+                     'src' : ['rel', 'sub'],  'tgt': ['pilot', 'sub']},
+                    {'form': 'dict', 'action': MOVE,
+                     'src' : ['task', 'flat'], 'tgt': ['rel', 'sub']}]}
 
 
 class TaskModel(object):
 
-    def __init__(self, w, uid, spec, outcome=rps.DONE, soe=False):
-        self.uid     = uid
-        self.sbx     = w.task_sbx(uid)
-        self.outcome = outcome
-        self.soe     = soe
-        # the bystander's files get their own index range
-        off = 0 if uid == UID_A else 7
+    def __init__(self, w, letter, spec, pos='first'):
+        self.letter  = letter
+        self.uid     = UIDS[letter]
+        self.test    = letter != 'B'       # task under test / bystander
+        self.sbx     = w.task_sbx(self.uid)
+        self.outcome = getattr(rps, spec.get('outcome', 'DONE'))
+        self.soe     = spec.get('soe', False)
+        self.pos     = pos                 # submitted first / later
+        self.rank    = dict()              # working state -> first / later
+        # every task's files get their own index range
+        off = OFFS[letter]
         self.ins  = [Directive(s, 'in',  i + off, self.sbx, w.absdir)
                      for i, s in enumerate(spec.get('in',  []))]
         self.outs = [Directive(s, 'out', i + off, self.sbx, w.absdir)
                      for i, s in enumerate(spec.get('out', []))]
+        for d in self.ins + self.outs:
+            d.pos   = pos
+            d.owner = self.uid
+
+    def tag(self, text):
+        '''observation label (the first task under test is not prefixed)'''
+        return text if self.letter == 'A' else '%s.%s' % (self.letter, text)
 
     def description(self):
         d = {'uid': self.uid, 'executable': '/bin/true'}
@@ -574,14 +610,14 @@ class Collector(report.Part):
         return ret
 
 
-ATTRS = ['direction', 'op', 'action', 'form', 'src', 'src_shape', 'tgt',
+ATTRS = ['direction', 'op', 'pos', 'action', 'form', 'src', 'src_shape', 'tgt',
          'tgt_shape', 'odd']
 OPS   = {TRANSFER: 'copy', COPY: 'copy', LINK: 'link', MOVE: 'move',
          TARBALL : 'tar'}
 
 
 def attrs_of(d):
-    return (d.direction, OPS[d.action], d.action, d.form, d.src_loc,
+    return (d.direction, OPS[d.action], d.pos, d.action, d.form, d.src_loc,
             d.src_shape, d.tgt_loc or 'default', d.tgt_shape or '-',
             d.odd or '-')
 
@@ -726,8 +762,8 @@ def aggregate(ctx, evals, fails, unst, multi):
 
     # kinds of directives (direction, action) which are never carried out
     never = set()
-    for da in set(u[0:3:2] for u in universe):
-        members = [u for u in universe if u[0:3:2] == da]
+    for da in set((u[0], u[3]) for u in universe):
+        members = [u for u in universe if (u[0], u[3]) == da]
         if all(any(('missing', site, u) in fails
                    for site in set(k[1] for k in fails)) for u in members):
             never.add(da)
@@ -745,7 +781,7 @@ def aggregate(ctx, evals, fails, unst, multi):
     for (site, combos), (detail, replay) in sorted(multi.items()):
         if not any(('task-failed', site, c) in fails for c in combos):
             ctx.violation('good-task-failed|%s|%s' % (site, '+'.join(
-                          '%s:%s:%s' % (c[0], c[2], c[3]) for c in combos)),
+                          '%s:%s:%s' % (c[0], c[3], c[4]) for c in combos)),
                           detail, replay)
 
     n        = len(ATTRS)
@@ -858,19 +894,122 @@ def check_case(part, case, scratch, verbose=False):
                     except OSError: pass
 
 
+COMPONENT_STATE = {('in',  'client'): rps.TMGR_STAGING_INPUT,
+                   ('in',  'agent' ): rps.AGENT_STAGING_INPUT,
+                   ('out', 'agent' ): rps.AGENT_STAGING_OUTPUT,
+                   ('out', 'client'): rps.TMGR_STAGING_OUTPUT}
+
+
+def set_positions(w, models, direction):
+    """
+    label every directive with the position of its task in the component
+    which handles it: `first` if that task was the first one to leave the
+    component (next state published after the component's working state),
+    `later` otherwise (among the tasks which have directives for that
+    component).  Read from the log of state publications.
+    """
+    log = list()
+    for channel, pub_id, msg in w.net.pub_log:
+        if channel == rpc.STATE_PUBSUB and msg.get('cmd') == 'update':
+            for thing in ru.as_list(msg['arg']):
+                log.append((thing['uid'], thing['state']))
+
+    for side in ('client', 'agent'):
+        work  = COMPONENT_STATE[(direction, side)]
+        leave = dict()
+        for tm in models:
+            # only tasks with work for this component count
+            # (a tarball is packed on the client side, unpacked by the agent)
+            if not [d for d in (tm.ins if direction == 'in' else tm.outs)
+                      if d.side == side or (d.action == TARBALL and
+                                            direction == 'in')]:
+                continue
+            idx = [i for i, (u, s) in enumerate(log) if u == tm.uid]
+            at  = [i for i in idx if log[i][1] == work]
+            if at:
+                nxt = [i for i in idx if i > at[0]]
+                leave[tm.uid] = nxt[0] if nxt else len(log)
+        ranked = sorted(leave, key=lambda u: leave[u])
+        for tm in models:
+            pos = 'first' if not ranked or tm.uid == ranked[0] else 'later'
+            tm.rank[work] = pos
+            for d in (tm.ins if direction == 'in' else tm.outs):
+                if d.side == side:
+                    d.pos = pos
+
+
+def parse_order(order):
+    """'AB' one submission, one bulk; 'B,A' separate submissions and bulks
+    (B first); trailing '+': bulks are forwarded merged between components"""
+    merge  = order.endswith('+')
+    groups = [list(g) for g in order.rstrip('+').split(',')]
+    return groups, merge
+
+
+def foreign_data(part, w, models, phase, replay, verbose):
+    """no task sandbox holds anything but what its own directives put there"""
+
+    every = [d for tm in models for d in tm.ins + tm.outs]
+    for tm in models:
+        own = set()
+        for d in tm.ins + tm.outs:
+            own.add(d.src_path)
+            own.add(d.tgt_path)
+        for dname, _, fnames in os.walk(tm.sbx['task']):
+            for fname in fnames:
+                path = os.path.join(dname, fname)
+                if path in own or fname == '%s.tar' % tm.uid:
+                    continue
+                content = read_file(path)
+                origin  = [d for d in every if d.content == content]
+                if origin and origin[0].owner == tm.uid:
+                    continue       # own data misplaced: the target clause
+                if origin:
+                    d    = origin[0]
+                    site = d.site()
+                    if resolution_fault(d, [m for m in models
+                                            if m.uid == d.owner][0].sbx):
+                        site = SITE_RESOLVE
+                    rel  = [x for x, k in (('source', kind_of(d.src_loc)),
+                                           ('target', kind_of(d.tgt_loc)))
+                              if k in ('rel', 'default')]
+                    trig = '%s:%s:schema-less=%s:handled-%s' % (
+                           d.direction, OPS[d.action],
+                           '+'.join(rel) or 'none', d.pos)
+                    what = 'holds the data of %s of %s: %r' % (
+                           'input directive' if d.direction == 'in'
+                           else 'output directive', d.owner, d.as_input())
+                else:
+                    site = 'unknown'
+                    trig = 'unknown-file'
+                    what = 'is not the product of any directive'
+                if verbose:
+                    print('  foreign data in sandbox of %s: %s %s'
+                          % (tm.uid, path, what))
+                part.violation('foreign-data|%s|%s' % (site, trig),
+                               {'what': 'after %s staging the sandbox of %s '
+                                        'contains %s, which %s'
+                                        % (phase, tm.uid, path, what)},
+                               replay)
+
+
 def _check_case(part, case, root, verbose):
 
     w      = World(root)
     replay = case
     obs    = list()
 
-    A = TaskModel(w, UID_A, case, getattr(rps, case.get('outcome', 'DONE')),
-                  case.get('soe', False))
-    B = TaskModel(w, UID_B, bystander_spec())
-    models = {UID_A: A, UID_B: B}
-    bulk   = case.get('order', 'AB')
-    order  = [A, B] if bulk.startswith('AB') else [B, A]
-    merge  = bulk.endswith('+')
+    groups, merge = parse_order(case.get('order', 'AB'))
+    flat   = [x for g in groups for x in g]
+    specs  = dict(case.get('more', {}), A=case, B=bystander_spec())
+    models = dict()
+    for i, letter in enumerate(flat):
+        models[letter] = TaskModel(w, letter, specs[letter],
+                                   'first' if i == 0 else 'later')
+    order  = [models[x] for x in flat]
+    by_uid = {tm.uid: tm for tm in order}
+    tests  = [tm for tm in order if tm.test]
+    A      = models['A']
 
     # -- input files -----------------------------------------------------------
     for tm in order:
@@ -881,21 +1020,24 @@ def _check_case(part, case, root, verbose):
 
     # -- submission: real Task.__init__ -> expand_description ------------------
     refused = False
-    tds     = list()
-    for tm in order:
-        tm.expanded = dict()
-        tds.append(rp.TaskDescription(tm.description()))
     try:
-        w.tm.submit_tasks(tds)
+        for g in groups:
+            tds = list()
+            for letter in g:
+                models[letter].expanded = dict()
+                tds.append(rp.TaskDescription(models[letter].description()))
+            w.tm.submit_tasks(tds)
     except Exception as e:
         refused = True
-        forms = sorted(set(d.cls() for d in A.ins + A.outs))
-        if any(d.odd for d in A.ins + A.outs):
+        dirs  = [d for tm in tests for d in tm.ins + tm.outs]
+        forms = sorted(set(d.cls() for d in dirs))
+        if any(d.odd for d in dirs):
             obs.append('refused-at-submit:%s' % type(e).__name__)
         else:
             part.violation('form-refused|%s|%s' % (SITE_EXPAND, forms[0]),
                            {'what': 'submission of %r raised %r'
-                                    % (A.description(), e)}, replay)
+                                    % ([tm.description() for tm in tests], e)},
+                           replay)
             obs.append('refused-at-submit!')
         if verbose:
             print('  submit_tasks raised %r' % e)
@@ -906,7 +1048,7 @@ def _check_case(part, case, root, verbose):
     pend = w.net.queues.get(rpc.TMGR_STAGING_INPUT_QUEUE) or []
     for bulk in pend:
         for t in bulk:
-            tm = models[t['uid']]
+            tm = by_uid[t['uid']]
             for key, dirs in (('input_staging', tm.ins),
                               ('output_staging', tm.outs)):
                 for d, sd in zip(dirs, t['description'].get(key) or []):
@@ -921,7 +1063,7 @@ def _check_case(part, case, root, verbose):
     # the sandboxes the real getters assigned must be the documented ones
     for bulk in pend:
         for t in bulk:
-            tm = models[t['uid']]
+            tm = by_uid[t['uid']]
             for k in ('client', 'resource', 'session', 'pilot', 'task'):
                 got = os.path.normpath(ru.Url(t['%s_sandbox' % k]).path)
                 if got != tm.sbx[k]:
@@ -941,6 +1083,16 @@ def _check_case(part, case, root, verbose):
     passed = {t['uid']: t for t in w.drain(rpc.AGENT_SCHEDULING_QUEUE)}
     states = w.states()
     last   = {uid: seq[-1] for uid, seq in states.items()}
+    set_positions(w, order, 'in')
+
+    def sibling_trigger(tm, direction, site):
+        bad = [d for t2 in tests if t2 is not tm
+                 for d in (t2.ins if direction == 'in' else t2.outs)
+                 if not d.carriable or d.refusable]
+        pos = [p for s, p in tm.rank.items() if WORK_STATE.get(s) == site]
+        return 'sibling-%s:handled-%s' % (
+               (bad[0].refusable if bad[0].carriable else 'missing-source')
+               if bad else 'good', pos[0] if pos else '?')
 
     for tm in order:
 
@@ -948,15 +1100,14 @@ def _check_case(part, case, root, verbose):
         bad  = [d for d in tm.ins if not d.carriable]
         ref  = [d for d in tm.ins if d.refusable]
         st   = last.get(uid, {}).get('state')
-        isA  = tm is A
+        role = 'task-under-test' if tm.test else 'bystander'
 
         if uid in passed:
             tm.status = 'passed'
             seq = [t['state'] for t in states.get(uid, [])]
             if st != rps.AGENT_SCHEDULING_PENDING or rps.FAILED in seq:
                 part.violation('failed-and-passed|%s|%s'
-                               % (fail_site(w, uid, states),
-                                  'task-under-test' if isA else 'bystander'),
+                               % (fail_site(w, uid, states), role),
                                {'what': '%s was passed on to the agent '
                                         'scheduler but was also announced as '
                                         'FAILED: published states %s'
@@ -978,11 +1129,12 @@ def _check_case(part, case, root, verbose):
                      ' exception=%s' % last[uid].get('exception')
                      if tm.status == 'failed' else ''))
 
-        if isA:
-            obs.append('in:%s' % tm.status)
+        tobs = list()
+        if tm.test:
+            tobs.append('in:%s' % tm.status)
             if tm.status == 'failed':
-                obs.append('exception-recorded=%s'
-                           % bool(last[uid].get('exception')))
+                tobs.append('exception-recorded=%s'
+                            % bool(last[uid].get('exception')))
 
         if tm.status == 'passed':
             for d in bad:
@@ -993,29 +1145,32 @@ def _check_case(part, case, root, verbose):
                                           'passed on to the agent scheduler'
                                           % (uid, d.src_path, d.as_input())},
                                  replay)
-                if isA:
-                    obs.append('%s:missing-ignored' % d.action)
-            check_targets(part, w, tm, tm.ins, replay, verbose,
-                          obs if isA else list())
+                tobs.append('%s:missing-ignored' % d.action)
+            check_targets(part, w, tm, tm.ins, replay, verbose, tobs)
 
         elif tm.status == 'failed':
             if not bad and not ref:
                 site = fail_site(w, uid, states)
-                detail = {'what': '%s: every input directive (%s) can be '
-                                  'carried out, but the task was FAILED: %s'
-                                  % (uid, [d.as_input() for d in tm.ins],
+                detail = {'what': '%s (submitted %s): every input directive (%s)'
+                                  ' can be carried out, but the task was '
+                                  'FAILED: %s'
+                                  % (uid, tm.pos,
+                                     [d.as_input() for d in tm.ins],
                                      last[uid].get('exception'))}
-                if isA:
+                if tm.test:
                     part.task_failed(good_failed(site, tm, tm.ins), tm.ins,
                                      detail, replay)
                 else:
-                    abad = [d for d in A.ins if not d.carriable
-                                             or d.refusable]
-                    part.violation('bystander-failed|%s|sibling:%s'
-                                   % (site, abad[0].cls() if abad else 'good'),
+                    part.violation('bystander-failed|%s|%s'
+                                   % (site, sibling_trigger(tm, 'in', site)),
                                    detail, replay)
-            elif isA and not bad:
-                obs.append('refused:%s' % ref[0].refusable)
+            elif not bad:
+                tobs.append('refused:%s' % ref[0].refusable)
+
+        if tm.test:
+            obs.extend(tm.tag(x) for x in tobs)
+
+    foreign_data(part, w, order, 'input', replay, verbose)
 
     # -- execution (harness) ---------------------------------------------------
     running = list()
@@ -1039,7 +1194,12 @@ def _check_case(part, case, root, verbose):
         running.append(task)
 
     if running:
-        w.net.q_put(rpc.AGENT_STAGING_OUTPUT_QUEUE, running)
+        if len(groups) > 1:
+            # tasks finish one after the other
+            for task in running:
+                w.net.q_put(rpc.AGENT_STAGING_OUTPUT_QUEUE, [task])
+        else:
+            w.net.q_put(rpc.AGENT_STAGING_OUTPUT_QUEUE, running)
 
     # -- output staging --------------------------------------------------------
     w.pump(w.agent_out, rpc.AGENT_STAGING_OUTPUT_QUEUE)
@@ -1049,12 +1209,13 @@ def _check_case(part, case, root, verbose):
 
     states = w.states()
     last   = {uid: seq[-1] for uid, seq in states.items()}
+    set_positions(w, order, 'out')
 
     for tm in order:
 
-        uid = tm.uid
-        isA = tm is A
-        st  = last.get(uid, {}).get('state')
+        uid  = tm.uid
+        st   = last.get(uid, {}).get('state')
+        role = 'task-under-test' if tm.test else 'bystander'
         tm.final = st
 
         if verbose:
@@ -1073,30 +1234,26 @@ def _check_case(part, case, root, verbose):
                                    replay)
             continue
 
-        bad = [d for d in tm.outs if not d.carriable]
-        ref = [d for d in tm.outs if d.refusable]
-        if isA:
-            obs.append('out:%s->%s' % (tm.outcome, st))
-            if st == rps.FAILED and tm.outcome == rps.DONE:
-                obs.append('exception-recorded=%s'
-                           % bool(last[uid].get('exception')))
+        bad  = [d for d in tm.outs if not d.carriable]
+        ref  = [d for d in tm.outs if d.refusable]
+        tobs = ['out:%s->%s' % (tm.outcome, st)]
+        if st == rps.FAILED and tm.outcome == rps.DONE:
+            tobs.append('exception-recorded=%s'
+                        % bool(last[uid].get('exception')))
 
         if st not in rps.FINAL:
             part.violation('not-final|%s|%s' % (fail_site(w, uid, states),
                            tm.outs[0].cls() if tm.outs else 'none'),
                            {'what': '%s: last published state after output '
                                     'staging is %s' % (uid, st)}, replay)
-            continue
 
-        if tm.outcome == rps.DONE:
+        elif tm.outcome == rps.DONE:
 
             if st == rps.DONE:
                 seq = [t['state'] for t in states.get(uid, [])]
                 if rps.FAILED in seq:
                     part.violation('failed-and-done|%s|%s'
-                                   % (fail_site(w, uid, states),
-                                      'task-under-test' if isA
-                                                        else 'bystander'),
+                                   % (fail_site(w, uid, states), role),
                                    {'what': '%s is DONE but was also announced'
                                             ' as FAILED: published states %s'
                                             % (uid, seq)}, replay)
@@ -1109,32 +1266,29 @@ def _check_case(part, case, root, verbose):
                                               % (uid, d.src_path,
                                                  d.as_input())},
                                      replay)
-                    if isA:
-                        obs.append('%s:missing-ignored' % d.action)
-                check_targets(part, w, tm, tm.outs, replay, verbose,
-                              obs if isA else list())
+                    tobs.append('%s:missing-ignored' % d.action)
+                check_targets(part, w, tm, tm.outs, replay, verbose, tobs)
 
             elif st == rps.FAILED:
                 ibad = [d for d in tm.ins if not d.carriable]
                 if not bad and not ref and not ibad:
                     site = fail_site(w, uid, states)
-                    detail = {'what': '%s ran successfully and every output '
-                                      'directive (%s) can be carried out, but '
-                                      'it is FAILED: %s'
-                                      % (uid, [d.as_input() for d in tm.outs],
+                    detail = {'what': '%s (submitted %s) ran successfully and '
+                                      'every output directive (%s) can be '
+                                      'carried out, but it is FAILED: %s'
+                                      % (uid, tm.pos,
+                                         [d.as_input() for d in tm.outs],
                                          last[uid].get('exception'))}
-                    if isA:
+                    if tm.test:
                         part.task_failed(good_failed(site, tm, tm.outs),
                                          tm.outs, detail, replay)
                     else:
-                        abad = [d for d in A.outs if not d.carriable
-                                                  or d.refusable]
-                        part.violation('bystander-failed|%s|sibling:%s'
-                                       % (site,
-                                          abad[0].cls() if abad else 'good'),
+                        part.violation('bystander-failed|%s|%s'
+                                       % (site, sibling_trigger(tm, 'out',
+                                                                site)),
                                        detail, replay)
-                elif isA and not bad and not ibad:
-                    obs.append('refused:%s' % ref[0].refusable)
+                elif not bad and not ibad:
+                    tobs.append('refused:%s' % ref[0].refusable)
             else:
                 part.violation('done-task-canceled|%s|%s'
                                % (fail_site(w, uid, states),
@@ -1156,9 +1310,8 @@ def _check_case(part, case, root, verbose):
                                             'exists' % (uid, tm.outcome,
                                                         d.as_input(),
                                                         d.tgt_path)}, replay)
-            if isA:
-                obs.append('soe=%s:staged=%s' % (tm.soe, ','.join(
-                           '%s' % d.action for d in staged) or '-'))
+            tobs.append('soe=%s:staged=%s' % (tm.soe, ','.join(
+                        '%s' % d.action for d in staged) or '-'))
             if st == rps.DONE:
                 part.violation('failed-task-done|%s|%s'
                                % (fail_site(w, uid, states), tm.outcome),
@@ -1166,6 +1319,11 @@ def _check_case(part, case, root, verbose):
                                         'final state is DONE' % (uid,
                                                                  tm.outcome)},
                                replay)
+
+        if tm.test:
+            obs.extend(tm.tag(x) for x in tobs)
+
+    foreign_data(part, w, order, 'output', replay, verbose)
 
     return tuple(obs)
 
@@ -1240,9 +1398,12 @@ def gen_cases(quick):
     for direction in ('in', 'out'):
         for d in single_directives(direction, full=not quick):
             for present in (True, False):
-                if   present: orders = ['AB']
-                elif quick  : orders = ['AB+', 'BA+']
-                else        : orders = ['AB', 'BA', 'AB+', 'BA+']
+                # the task under test is handled first; second after the
+                # bystander in an earlier bulk of its own; second in one bulk
+                if   present and quick: orders = ['AB', 'B,A', 'BA+']
+                elif present          : orders = ['AB', 'B,A', 'BA', 'BA+']
+                elif quick            : orders = ['AB+', 'BA+']
+                else                  : orders = ['AB', 'BA', 'AB+', 'BA+']
                 for order in orders:
                     cases.append({'part' : '%s1' % direction,
                                   direction: [dict(d, present=present)],
@@ -1277,6 +1438,24 @@ def gen_cases(quick):
         cases.append({'part': 'both', 'in': [dict(d1)], 'out': [dict(d2)]})
         cases.append({'part': 'both', 'in': [dict(d1, present=False)],
                       'out': [dict(d2)]})
+
+    # part seq3: three tasks one after the other through one world
+    for direction in ('in', 'out'):
+        if quick:
+            triples = [(d1, d2, d1) for d1, d2 in itertools.product(red, red)]
+        else:
+            triples = list(itertools.product(red, red, red))
+        for d1, d2, d3 in triples:
+            cases.append({'part': 'seq3', direction: [dict(d1)],
+                          'more': {'C': {direction: [dict(d2)]},
+                                   'D': {direction: [dict(d3)]}},
+                          'order': 'A,C,D'})
+        if not quick:
+            for d1, d2 in itertools.product(red, red):
+                cases.append({'part': 'seq3', direction: [dict(d1)],
+                              'more': {'C': {direction: [dict(d2)]},
+                                       'D': {direction: [dict(d1)]}},
+                              'order': 'ACD+'})
 
     # part odd: spellings at the edge of the documented forms
     for direction in ('in', 'out'):
@@ -1332,10 +1511,12 @@ def _job(idx):
         for i in range(lo, hi):
             case = _cases[i]
             obs  = check_case(part, case, _scratch)
+            dirs = case.get('in', []) + case.get('out', [])
+            for spec in case.get('more', {}).values():
+                dirs = dirs + spec.get('in', []) + spec.get('out', [])
             part.outcome((case['part'],) + tuple(
                          d.get('action', TRANSFER) + ':' + d['form']
-                         for d in case.get('in', []) + case.get('out', []))
-                         + obs)
+                         for d in dirs) + obs)
             k = 'cases_%s' % case['part']
             counts[k] = counts.get(k, 0) + 1
     part.cover(evaluations=hi - lo, **counts)
@@ -1392,8 +1573,9 @@ def run(ctx):
                  '`g << f`, dict x 5 actions with and without target} x source'
                  ' location x target location (client, task, pilot, session, '
                  'resource, endpoint, file://, absolute, relative; %s) x '
-                 'source present / missing (missing: task before / after the '
-                 'bystander%s); '
+                 'source present / missing x handling order (task under test '
+                 'first; second after the bystander, in an earlier bulk of its'
+                 ' own or in the same bulk%s); '
                  '(outcome) FAILED / CANCELED x stage_on_error x output '
                  'directives; (in2/out2) all ordered pairs over %d '
                  'representative directives x which source is missing; (both) '
@@ -1404,8 +1586,8 @@ def run(ctx):
                  'classes'
                  % ('flat and sub-directory paths' if not ctx.quick else
                     'one path shape per location',
-                    ', bulks forwarded merged' if ctx.quick else
-                    ', bulks forwarded merged / one by one',
+                    '; missing sources: bulks forwarded merged' if ctx.quick
+                    else '; missing sources: merged / one by one',
                     len(reduced_directives() if ctx.quick
                         else medium_directives())))
     ctx.set(distinct_nontrivial=len(ctx.outcomes))
